@@ -185,3 +185,234 @@ Lemma preds_eq i : preds i = preds_spec i.
 Proof. destruct i as [l|rows]; [reflexivity|]. cbn. apply map_ext. intros r. apply argmax_eq_first_max. Qed.
 Lemma pairs_eq b : pairs b = pairs_spec b.
 Proof. unfold pairs, pairs_spec. rewrite preds_eq. reflexivity. Qed.
+
+(* ------------------------------------------------------------------------------------------ *)
+(* in-place updates of tabulated vectors; scatter-add; sparse-COO accumulation                 *)
+(* ------------------------------------------------------------------------------------------ *)
+Lemma upd_nth_tab {X} (f : X -> X) : forall n s k (g : nat -> X),
+  upd_nth k f (map g (seq s n)) = map (fun c => if Nat.eqb c (s + k) then f (g c) else g c) (seq s n).
+Proof.
+  induction n as [|n IH]; intros s k g; [destruct k; reflexivity|].
+  cbn [seq map]. destruct k as [|k]; cbn [upd_nth].
+  - rewrite Nat.add_0_r, Nat.eqb_refl. f_equal. apply map_ext_in. intros c Hc. apply in_seq in Hc.
+    destruct (Nat.eqb_spec c s); [lia|reflexivity].
+  - destruct (Nat.eqb_spec s (s + S k)); [lia|]. f_equal. rewrite IH. apply map_ext. intros c.
+    replace (S s + k)%nat with (s + S k)%nat by lia. reflexivity.
+Qed.
+Lemma upd_at_tab {X} (f : X -> X) n i (g : Z -> X) :
+  upd_at i f (map g (classes n)) = map (fun c => if c =? i then f (g c) else g c) (classes n).
+Proof.
+  unfold upd_at, classes. rewrite !map_map. destruct (Z.ltb_spec i 0) as [Hi|Hi].
+  - apply map_ext. intros c. destruct (Z.eqb_spec (Z.of_nat c) i); [lia|reflexivity].
+  - rewrite upd_nth_tab. apply map_ext. intros c. cbn [Nat.add].
+    destruct (Nat.eqb_spec c (Z.to_nat i)), (Z.eqb_spec (Z.of_nat c) i); try reflexivity; lia.
+Qed.
+Lemma repeat_tab {X} (x : X) n : repeat x n = map (fun _ => x) (classes n).
+Proof.
+  unfold classes. rewrite map_map. generalize 0%nat as s. induction n as [|n IH]; intros s; [reflexivity|].
+  cbn [repeat seq map]. f_equal. apply IH.
+Qed.
+
+Definition sum_where (c : Z) (ps : list (Z * Z)) : Z := sumZ (map snd (filter (fun p => fst p =? c) ps)).
+Lemma sum_where_cons c p ps : sum_where c (p :: ps) = (if fst p =? c then snd p else 0) + sum_where c ps.
+Proof. unfold sum_where. cbn [filter]. destruct (fst p =? c); cbn [map]; [rewrite sumZ_cons|]; lia. Qed.
+
+Lemma scatter_fold_tab n : forall ps (g : Z -> Z),
+  fold_left (fun acc p => upd_at (fst p) (Z.add (snd p)) acc) ps (map g (classes n))
+  = map (fun c => g c + sum_where c ps) (classes n).
+Proof.
+  induction ps as [|p ps IH]; intros g; cbn [fold_left].
+  - apply map_ext. intros c. unfold sum_where. cbn. lia.
+  - rewrite upd_at_tab, IH. apply map_ext. intros c. rewrite sum_where_cons, (Z.eqb_sym (fst p) c).
+    destruct (c =? fst p); lia.
+Qed.
+(* scatter_(reduce="add") into zeros = per-class sums of the source *)
+Theorem scatter_add_spec n idx src :
+  scatter_add n idx src = map (fun c => sum_where c (combine idx src)) (classes n).
+Proof. unfold scatter_add. rewrite repeat_tab, scatter_fold_tab. apply map_ext. intros c. lia. Qed.
+Theorem scatter_ones_spec n idx : scatter_ones n idx = map (fun c => cnt (fun i => i =? c) idx) (classes n).
+Proof.
+  unfold scatter_ones. rewrite scatter_add_spec. apply map_ext. intros c.
+  induction idx as [|i idx IH]; [reflexivity|]. cbn [map combine]. rewrite sum_where_cons, cnt_cons, IH. cbn [fst snd].
+  destruct (i =? c); reflexivity.
+Qed.
+
+Lemma coo_fold_tab n : forall ps (G : Z -> Z -> Z),
+  fold_left (fun m p => upd_at (snd p) (upd_at (fst p) (Z.add 1)) m) ps (map (fun i => map (G i) (classes n)) (classes n))
+  = map (fun i => map (fun j => G i j + cm_cell ps i j) (classes n)) (classes n).
+Proof.
+  induction ps as [|p ps IH]; intros G; cbn [fold_left].
+  - apply map_ext. intros i. apply map_ext. intros j. unfold cm_cell. rewrite cnt_nil. lia.
+  - rewrite upd_at_tab.
+    rewrite (map_ext _ (fun i => map (fun j => if (i =? snd p) && (j =? fst p) then 1 + G i j else G i j) (classes n))).
+    + rewrite (IH (fun i j => if (i =? snd p) && (j =? fst p) then 1 + G i j else G i j)).
+      apply map_ext. intros i. apply map_ext. intros j. unfold cm_cell. rewrite cnt_cons.
+      rewrite (Z.eqb_sym (snd p) i), (Z.eqb_sym (fst p) j). destruct (i =? snd p), (j =? fst p); cbn [andb b2z]; lia.
+    + intros i. destruct (i =? snd p); cbn [andb]; [|reflexivity]. rewrite upd_at_tab. reflexivity.
+Qed.
+(* sparse-COO accumulation of (target, prediction) pairs = matrix of pair counts *)
+Theorem coo_dense_spec n ps :
+  coo_dense n ps = map (fun i => map (fun j => cm_cell ps i j) (classes n)) (classes n).
+Proof.
+  unfold coo_dense. rewrite (repeat_tab 0 n), (repeat_tab (map (fun _ => 0) (classes n)) n).
+  rewrite (coo_fold_tab n ps (fun _ _ => 0)). reflexivity.
+Qed.
+
+(* zeros.scatter_(-1, topk.indices, 1.0) = indicator of the selected index set *)
+Lemma memZ_cons c i l : memZ c (i :: l) = (c =? i) || memZ c l.
+Proof. reflexivity. Qed.
+Lemma tk_fold_tab n : forall sel (g : Z -> Z),
+  fold_left (fun acc i => upd_at i (fun _ => 1) acc) sel (map g (classes n))
+  = map (fun c => if memZ c sel then 1 else g c) (classes n).
+Proof.
+  induction sel as [|i sel IH]; intros g; cbn [fold_left]; [reflexivity|].
+  rewrite upd_at_tab, IH. apply map_ext. intros c. rewrite memZ_cons.
+  destruct (c =? i), (memZ c sel); reflexivity.
+Qed.
+Theorem tk_label_spec row sel : tk_label row sel = map (fun c => b2z (memZ c sel)) (classes (List.length row)).
+Proof. unfold tk_label. rewrite repeat_tab, tk_fold_tab. reflexivity. Qed.
+
+(* ------------------------------------------------------------------------------------------ *)
+(* tabulated vectors: helpers                                                                  *)
+(* ------------------------------------------------------------------------------------------ *)
+Lemma combine_map {X A B} (f : X -> A) (g : X -> B) l : combine (map f l) (map g l) = map (fun x => (f x, g x)) l.
+Proof. induction l as [|x l IH]; [reflexivity|]. cbn [map combine]. rewrite IH. reflexivity. Qed.
+Lemma filter_map {X Y} (f : X -> Y) (P : Y -> bool) l : filter P (map f l) = map f (filter (fun x => P (f x)) l).
+Proof. induction l as [|x l IH]; [reflexivity|]. cbn [map filter]. destruct (P (f x)); cbn [map]; rewrite IH; reflexivity. Qed.
+Lemma map2_map {X A B C} (h : A -> B -> C) (f : X -> A) (g : X -> B) l :
+  map2 h (map f l) (map g l) = map (fun x => h (f x) (g x)) l.
+Proof. induction l as [|x l IH]; [reflexivity|]. cbn [map map2]. rewrite IH. reflexivity. Qed.
+Lemma rows3 (f g h : Z -> Z) cls :
+  combine (map z2q (map f cls)) (combine (map z2q (map g cls)) (map z2q (map h cls)))
+  = map (fun c => (z2q (f c), (z2q (g c), z2q (h c)))) cls.
+Proof. rewrite !map_map, combine_map, combine_map. reflexivity. Qed.
+Lemma rows2 (f g : Z -> Z) cls :
+  combine (map z2q (map f cls)) (map z2q (map g cls)) = map (fun c => (z2q (f c), z2q (g c))) cls.
+Proof. rewrite !map_map, combine_map. reflexivity. Qed.
+Lemma fld_zvec3 a b c : fld 0 (Arr [zvec a; zvec b; zvec c]) = map z2q a /\ fld 1 (Arr [zvec a; zvec b; zvec c]) = map z2q b
+  /\ fld 2 (Arr [zvec a; zvec b; zvec c]) = map z2q c.
+Proof. unfold fld, zvec. cbn [nget narr nth]. rewrite !nlist_nvec. auto. Qed.
+Lemma fld_zvec2 a b : fld 0 (Arr [zvec a; zvec b]) = map z2q a /\ fld 1 (Arr [zvec a; zvec b]) = map z2q b.
+Proof. unfold fld, zvec. cbn [nget narr nth]. rewrite !nlist_nvec. auto. Qed.
+Lemma qsum_z2q l : qsum (map z2q l) = z2q (sumZ l).
+Proof.
+  induction l as [|x l IH]; [symmetry; apply z2q_0|]. cbn [map qsum fold_right]. fold (qsum (map z2q l)).
+  rewrite IH, sumZ_cons, z2q_add. reflexivity.
+Qed.
+Lemma sumZ_filter_zero {X} (f : X -> Z) (P : X -> bool) l :
+  (forall x, P x = false -> f x = 0) -> sumZ (map f (filter P l)) = sumZ (map f l).
+Proof.
+  intros H. induction l as [|x l IH]; [reflexivity|]. cbn [filter map]. destruct (P x) eqn:E; cbn [map]; rewrite !sumZ_cons, IH.
+  - reflexivity.
+  - rewrite (H x E). lia.
+Qed.
+Lemma filter_all {X} (P : X -> bool) l : forallb P l = true -> filter P l = l.
+Proof. induction l as [|x l IH]; [reflexivity|]. cbn [forallb filter]. intros H. apply andb_prop in H as [H1 H2]. rewrite H1, IH by exact H2. reflexivity. Qed.
+
+(* ------------------------------------------------------------------------------------------ *)
+(* per-class count vectors: scatter-based algo = direct counts                                 *)
+(* ------------------------------------------------------------------------------------------ *)
+Lemma cnt_label c ps : cnt (fun py : Z * Z => snd py =? c) ps = tp c ps + fn c ps.
+Proof.
+  unfold tp, fn. rewrite (cnt_split _ (fun py => fst py =? c)). f_equal; apply cnt_ext; intros [p y]; cbn [fst snd];
+    destruct (y =? c), (p =? c); reflexivity.
+Qed.
+Lemma cnt_pred c ps : cnt (fun py : Z * Z => fst py =? c) ps = tp c ps + fp c ps.
+Proof. unfold tp, fp. rewrite (cnt_split _ (fun py => snd py =? c)). reflexivity. Qed.
+Lemma vec_support n ps : scatter_ones n (map snd ps) = map (support ps) (classes n).
+Proof. rewrite scatter_ones_spec. apply map_ext. intros c. rewrite cnt_map. apply cnt_label. Qed.
+Lemma vec_npred n ps : scatter_ones n (map fst ps) = map (fun c => tp c ps + fp c ps) (classes n).
+Proof. rewrite scatter_ones_spec. apply map_ext. intros c. rewrite cnt_map. apply cnt_pred. Qed.
+Lemma vec_tp n ps : scatter_ones n (map snd (sel_eq ps)) = map (fun c => tp c ps) (classes n).
+Proof.
+  rewrite scatter_ones_spec. apply map_ext. intros c. unfold sel_eq. rewrite cnt_map, cnt_filter. apply cnt_ext.
+  intros [p y]. cbn [fst snd]. destruct (Z.eqb_spec p y), (Z.eqb_spec y c), (Z.eqb_spec p c); cbn; try reflexivity; exfalso; lia.
+Qed.
+Lemma vec_fp n ps : scatter_ones n (map fst (sel_ne ps)) = map (fun c => fp c ps) (classes n).
+Proof.
+  rewrite scatter_ones_spec. apply map_ext. intros c. unfold sel_ne. rewrite cnt_map, cnt_filter. apply cnt_ext.
+  intros [p y]. cbn [fst snd]. destruct (Z.eqb_spec p y), (Z.eqb_spec y c), (Z.eqb_spec p c); cbn; try reflexivity; exfalso; lia.
+Qed.
+Lemma tp_nonneg c ps : 0 <= tp c ps. Proof. apply cnt_nonneg. Qed.
+Lemma fp_nonneg c ps : 0 <= fp c ps. Proof. apply cnt_nonneg. Qed.
+Lemma fn_nonneg c ps : 0 <= fn c ps. Proof. apply cnt_nonneg. Qed.
+Lemma support_le c ps : support ps c <= lenZ ps.
+Proof. unfold support. rewrite <- cnt_label. apply cnt_le_len. Qed.
+
+(* every label is a class index: the supports add up to the number of samples *)
+Lemma sum_onehot n y : inrange n y = true -> sumZ (map (fun c => b2z (y =? c)) (classes n)) = 1.
+Proof.
+  unfold inrange, classes. intros H. apply andb_prop in H as [H1 H2]. apply Z.leb_le in H1. apply Z.ltb_lt in H2.
+  rewrite map_map. replace n with (Z.to_nat y + S (n - S (Z.to_nat y)))%nat by lia.
+  rewrite seq_app, map_app. cbn [seq map].
+  assert (Hs : forall l, sumZ l = fold_right Z.add 0 l) by reflexivity.
+  assert (Happ : forall a b, sumZ (a ++ b) = sumZ a + sumZ b).
+  { induction a as [|x a IH]; intros b; [reflexivity|]. cbn [app]. rewrite !sumZ_cons, IH. lia. }
+  rewrite Happ, sumZ_cons.
+  assert (Hz : forall s m, (forall c, In c (seq s m) -> Z.of_nat c <> y) -> sumZ (map (fun c => b2z (y =? Z.of_nat c)) (seq s m)) = 0).
+  { intros s m. revert s. induction m as [|m IH]; intros s Hc; [reflexivity|]. cbn [seq map]. rewrite sumZ_cons, IH.
+    - destruct (Z.eqb_spec y (Z.of_nat s)) as [E|E]; [exfalso; apply (Hc s); [left; reflexivity|lia]|reflexivity].
+    - intros c Hin. apply Hc. right. exact Hin. }
+  rewrite !Hz.
+  - cbn [Nat.add]. destruct (Z.eqb_spec y (Z.of_nat (Z.to_nat y))); [reflexivity|lia].
+  - intros c Hc. apply in_seq in Hc. lia.
+  - intros c Hc. apply in_seq in Hc. lia.
+Qed.
+Lemma sum_support n ps : forallb (inrange n) (map snd ps) = true -> sumZ (map (support ps) (classes n)) = lenZ ps.
+Proof.
+  induction ps as [|[p y] ps IH]; intros H.
+  - cbn [map]. clear. induction (classes n) as [|c l IHl]; [reflexivity|]. cbn [map]. rewrite sumZ_cons, IHl. reflexivity.
+  - cbn [map forallb snd] in H. apply andb_prop in H as [Hy Hr]. rewrite lenZ_cons, <- (IH Hr), <- (sum_onehot n y Hy).
+    clear. induction (classes n) as [|c l IHl]; [reflexivity|]. cbn [map]. rewrite !sumZ_cons, IHl.
+    unfold support. rewrite <- !cnt_label, cnt_cons. cbn [snd]. lia.
+Qed.
+Lemma forallb_snd_combine {X} (P : Z -> bool) (a : list X) b : forallb P b = true -> forallb P (map snd (combine a b)) = true.
+Proof.
+  revert b. induction a as [|x a IH]; intros [|y b] H; try reflexivity. cbn [combine map forallb snd] in *.
+  apply andb_prop in H as [H1 H2]. rewrite H1, IH by exact H2. reflexivity.
+Qed.
+
+(* ------------------------------------------------------------------------------------------ *)
+(* Precision                                                                                   *)
+(* ------------------------------------------------------------------------------------------ *)
+Lemma prec1_z t f : 0 <= t -> 0 <= f -> prec1 (z2q t) (z2q f) = ratio0 t (t + f).
+Proof. intros Ht Hf. unfold prec1. rewrite <- z2q_add, qdivx_z by lia. apply ratio0_nan. Qed.
+Lemma present_mask_prec ps c :
+  nz (z2q (support ps c)) || nz (z2q (tp c ps) + z2q (fp c ps))%Qc = present ps c.
+Proof.
+  rewrite <- z2q_add, !nz_z2q. unfold present, support.
+  pose proof (tp_nonneg c ps). pose proof (fp_nonneg c ps). pose proof (fn_nonneg c ps).
+  destruct (Z.eqb_spec (tp c ps + fn c ps) 0), (Z.eqb_spec (tp c ps + fp c ps) 0), (Z.eqb_spec (tp c ps + fp c ps + fn c ps) 0);
+    cbn; try reflexivity; exfalso; lia.
+Qed.
+Lemma split_correct ps : lenZ (sel_eq ps) + lenZ (sel_ne ps) = lenZ ps.
+Proof. unfold sel_eq, sel_ne. rewrite !lenZ_filter, <- cnt_true. rewrite (cnt_split (fun _ => true) (fun py => fst py =? snd py)). reflexivity. Qed.
+
+Definition targets_in (n : nat) (b : mcbatch) : Prop := forallb (inrange n) (snd b) = true.
+
+Theorem mcprec_algo_eq_spec a nc b :
+  (a = Weighted -> targets_in (ncls nc) b) ->
+  fn_of mcprec_spec (a, nc) b = mcprec_textbook (a, nc) b.
+Proof.
+  intros Hv. unfold fn_of, mcprec_textbook, prf_spec_of. cbn [agamma abeta mcprec_spec fst snd].
+  rewrite <- pairs_eq. set (ps := pairs b). unfold prec_beta, prec_gamma. cbn [fst snd]. fold ps.
+  destruct a; cbn [is_micro].
+  - (* micro *) f_equal. cbn [fsc nget narr nth nsc zsc]. unfold micro_spec, n_correct.
+    rewrite prec1_z by apply cnt_nonneg. rewrite split_correct. reflexivity.
+  - (* macro *) f_equal. rewrite vec_fp, vec_support, vec_tp.
+    destruct (fld_zvec3 (map (fun c => fp c ps) (classes (ncls nc))) (map (support ps) (classes (ncls nc))) (map (fun c => tp c ps) (classes (ncls nc)))) as [E0 [E1 E2]].
+    rewrite E0, E1, E2, rows3, filter_map, map_map. cbn [fst snd]. unfold macro_of. f_equal.
+    rewrite (filter_ext _ (present ps)) by (intros c; apply present_mask_prec).
+    apply map_ext. intros c. apply prec1_z; [apply tp_nonneg|apply fp_nonneg].
+  - (* weighted *) f_equal. rewrite vec_fp, vec_support, vec_tp.
+    destruct (fld_zvec3 (map (fun c => fp c ps) (classes (ncls nc))) (map (support ps) (classes (ncls nc))) (map (fun c => tp c ps) (classes (ncls nc)))) as [E0 [E1 E2]].
+    rewrite E0, E1, E2, qsum_z2q, sum_support by (apply forallb_snd_combine, Hv; reflexivity).
+    rewrite rows3, filter_map, !map_map, map2_map. cbn [fst snd]. unfold weighted_of. f_equal.
+    rewrite (filter_ext _ (present ps)) by (intros c; apply present_mask_prec).
+    apply map_ext. intros c. rewrite prec1_z by (try apply tp_nonneg; apply fp_nonneg).
+    rewrite qdivx_z; [reflexivity|]. intros H0. pose proof (support_le c ps). unfold support in *.
+    pose proof (tp_nonneg c ps). pose proof (fn_nonneg c ps). lia.
+  - (* per class *) f_equal. rewrite vec_fp, vec_support, vec_tp.
+    destruct (fld_zvec3 (map (fun c => fp c ps) (classes (ncls nc))) (map (support ps) (classes (ncls nc))) (map (fun c => tp c ps) (classes (ncls nc)))) as [E0 [E1 E2]].
+    rewrite E0, E2, rows2, map_map. cbn [fst snd]. apply map_ext. intros c. apply prec1_z; [apply tp_nonneg|apply fp_nonneg].
+Qed.
